@@ -431,6 +431,13 @@ def eval_laplacian(spec):
         return False, f"shape {got.shape} or non-finite values"
     if not np.array_equal(pts, p0) or not np.array_equal(vals, keep):
         return False, "an input array was modified"
+    # the caller reuses its work array for the next function: the callable already returned keeps answering for the values it was given
+    vals[:] = dens(spec["density2"], grid.points)
+    again = np.asarray(L(pts), dtype=float)
+    vals[:] = keep
+    if not np.allclose(again, got, rtol=1e-12, atol=1e-12 * (1.0 + float(np.max(np.abs(got))))):
+        return False, (f"the returned callable follows a later in-place change of the caller's value array: "
+                       f"max change {float(np.max(np.abs(again - got))):.3e}")
     want = lap(spec["density"], pts)
     scale = max(1.0, float(np.max(np.abs(want))))
     err = float(np.max(np.abs(got - want))) / scale
